@@ -20,7 +20,12 @@ FUNCTIONS = [
     "nemoguardrails.colang.v2_x.runtime.statemachine.run_to_completion (ForkHead, MergeHeads, WaitForHeads, scopes)",
 ]
 LAST_INFO = None
-LEAVES = [Spec(name="E%d" % i) for i in range(8)]
+SAMENAME = bool(sl("samename", 0))  # leaves are events of ONE name that differ only in an argument: E(p=0) .. E(p=7)
+LEAVES = [Spec(name="E", arguments={"p": i}) for i in range(8)] if SAMENAME else [Spec(name="E%d" % i) for i in range(8)]
+
+
+def _idx(leaf):
+    return int(leaf.arguments["p"]) if SAMENAME else int(leaf.name[1:])
 
 
 # ---- (a) DNF -------------------------------------------------------------
@@ -32,7 +37,7 @@ def _node(kind, a, b):
 
 def _ev(tree, val):
     if isinstance(tree, Spec):
-        return val[int(tree.name[1:])]
+        return val[_idx(tree)]
     # '&' / '|' on symbolic booleans build one solver term instead of forking per leaf
     parts = [_ev(e, val) for e in tree["elements"]]
     acc = parts[0]
@@ -76,7 +81,7 @@ def dnf_truth(k0: int, k1: int, k2: int, k3: int, k4: int, k5: int, k6: int, b0:
         for leaf in grp["elements"]:
             if not isinstance(leaf, Spec):
                 return False
-            g = val[int(leaf.name[1:])] if g is None else (g & val[int(leaf.name[1:])])
+            g = val[_idx(leaf)] if g is None else (g & val[_idx(leaf)])
         if g is None:
             return False
         truth = g if truth is None else (truth | g)
@@ -246,7 +251,7 @@ SPEC = {
     "assumptions": ["the state (parse + expand_elements + initialize) is rebuilt from source text on every path; parse untraced, expansion traced"],
     "explanation": "Oracle: truth-table equality for the DNF; for run time, #Done emitted at step k == 1 iff formula(seen_k) and not fired before, else 0.",
     "conditions": [
-        {"fn": "dnf_truth", "slices": [{}], "tcond": 900, "tpath": 10, "bound": "depth<=3, 3^7 shapes x 2^8 assignments",
+        {"fn": "dnf_truth", "slices": [{}, {"samename": 1}], "tcond": 900, "tpath": 10, "bound": "depth<=3, 3^7 shapes x 2^8 assignments; leaves with distinct names, and leaves of one name differing only in an argument",
          "smoke": [{"slice": {}, "args": dict(k0=1, k1=2, k2=2, k3=0, k4=1, k5=0, k6=0, b0=True, b1=False, b2=False, b3=True, b4=True, b5=False, b6=False, b7=False)}]},
         {"fn": "dnf_twin", "expect": "counterexample", "slices": [{}], "tcond": 120, "tpath": 10, "bound": "twin"},
         {"fn": "group_first_moment", "tiers": ("quick",), "slices": _slices("match", 2, 3) + _slices("match", 3, 3) + _slices("await", 2, 3) + _slices("await", 3, 2, [2, 6])
